@@ -2978,8 +2978,11 @@ namespace Clipper2Lib {
 
   bool ClipperBase::CheckSplitOwner(OutRec* outrec, OutRecList* splits)
   {
-    for (auto split : *splits)
+    // nb: splits->size() isn't static here because CheckBounds below
+    // can indirectly append to this list (via DoSplitOp)
+    for (size_t i = 0; i < splits->size(); ++i)
     {
+      OutRec* split = (*splits)[i];
       if (!split->pts && split->splits &&
         split->recursive_split != outrec)
       {
